@@ -402,6 +402,10 @@ fn main() {
                 Err(FrameError::Settings(_)) => "err settings".into(),
                 Err(FrameError::InvalidStreamId(_)) => "err streamid".into(),
                 Err(FrameError::InvalidPushId(_)) => "err pushid".into(),
+                // a variant this harness does not know: an observation (it differs from model and reference), never a
+                // build failure of the check
+                #[allow(unreachable_patterns)]
+                Err(other) => format!("err other:{:?}", other).replace(' ', ""),
             }
         }
         ["fe", k] => {
